@@ -391,6 +391,26 @@ fn check_list(array: bool, items: &[Elem], obs: &Obs, key: &Case) -> CheckResult
         Ok(o) => ensure!(o == joined, "list-join", "list of {n} formatted as {:?}, elements joined by ',' give {:?}", txt(&o), txt(&joined)),
         Err(e) => fail!("format-error", "formatting a list of {n} failed with {}", e.get_code()),
     }
+    // the same list where it is not the first thing in the buffer: second datum of a unit,
+    // after a response header, in the second unit of a message, and nested
+    if let Some(Elem::I32(_)) = items.first() {
+        use scpi::parser::response::Formatter;
+        let vals: Vec<i32> = items.iter().filter_map(|e| if let Elem::I32(v) = e { Some(*v) } else { None }).collect();
+        let j = String::from_utf8(joined.clone()).unwrap();
+        let mut buf: Vec<u8> = Vec::new();
+        let r = buf.response_unit().and_then(|mut u| u.data(7u8).data(vals.clone()).finish());
+        ensure!(r.is_ok() && buf == format!("7,{j}").as_bytes(), "list-in-context", "list as second datum of a unit: {:?}, expected {:?}", txt(&buf), format!("7,{j}"));
+        let mut buf: Vec<u8> = Vec::new();
+        let r = buf.response_unit().and_then(|mut u| u.header(b"TRAC").data(vals.clone()).finish());
+        ensure!(r.is_ok() && buf == format!("TRAC {j}").as_bytes(), "list-in-context", "list after a response header: {:?}, expected {:?}", txt(&buf), format!("TRAC {j}"));
+        let mut buf: Vec<u8> = Vec::new();
+        let r = buf.response_unit().and_then(|mut u| u.data(true).finish()).and_then(|_| buf.response_unit().and_then(|mut u| u.data(vals.clone()).finish()));
+        ensure!(r.is_ok() && buf == format!("1;{j}").as_bytes(), "list-in-context", "list in the second unit: {:?}, expected {:?}", txt(&buf), format!("1;{j}"));
+        let nested = vec![vals.clone(), vals.clone()];
+        let out = fmt(&nested);
+        ensure!(out.as_deref() == Ok(format!("{j},{j}").as_bytes()), "list-in-context", "nested list: {:?}, expected {:?}", out.map(|o| txt(&o)), format!("{j},{j}"));
+        obs.label("list formatted in context");
+    }
     Ok(())
 }
 
